@@ -117,6 +117,32 @@ _sched("C06", "Theorems over every accepted trace: a dedup key is registered at 
               "the hash function's business: checked by the harness (key vs. observable digest), see DESIGN.")
 
 
+PROPS["C10"] = {
+    "lean": "Props.C10", "domains": [{"name": "vars", "env": {"VERIF_VARS_ENVDEP": "0"}}],
+    "trusted": ["the shell is an input of the model (theorems hold for every shell); the harness reads the abstract definition layers back from what Task "
+                "loaded (Compiler.TaskfileEnv/TaskfileVars, Task.IncludeVars/IncludedTaskfileVars/Vars) and parses only the template forms its generator emits"],
+    "assumptions": ["templates are concatenations of text and {{.NAME}} references; values are strings; env-precedence experiment off in the harness process "
+                    "(its guard is pinned by Gen.VarLayers)"],
+    "level_text": "Theorems for every set of definitions at every site, every value kind and every shell: the last definition in processing order wins and is "
+                  "evaluated over exactly what was resolved before it (C10_last_wins), undefined names keep the process-environment value, later sites cannot "
+                  "be influenced by earlier ones except through references; command environment: task env > task dotenv (first file wins) > global env, "
+                  "process environment wins unless the experiment. Tie: Gen.VarLayers (loop order of getVariables, task-dir resolution point, env merges, "
+                  "GetFromVars guard) proved equal to the documented order; the real CompiledTask on generated definition-site lattices must equal the model.",
+    "level_note": "Trusted: Lean kernel; extractor; harness abstraction of loaded variables; go-task/template for the restricted template forms.",
+}
+PROPS["C11"] = {
+    "lean": "Props.C11", "domains": [{"name": "vars"}],
+    "trusted": PROPS["C10"]["trusted"],
+    "assumptions": PROPS["C10"]["assumptions"] + ["C11 is proved under EnvIndep (an sh: command's output depends on its text and directory only); without it the "
+                                                   "statement is false (machine-checked counterexample; open finding C11-dynamic-cache-ignores-env)"],
+    "level_text": "Theorem (induction over arbitrary histories of compilations): for every cache reachable by compiling any sequence of other tasks, a task "
+                  "resolves to the same variables as with an empty cache, provided sh: output depends on command text and directory only; the cache stays "
+                  "coherent. Counterexample to the unrestricted statement checked by `decide`. Tie: Gen.VarLayers pins the cache key (dir + command) and its "
+                  "lock; the harness compiles random call sequences in ONE executor and compares every compile with the model on an EMPTY cache.",
+    "level_note": "Trusted: as C10. The concurrent case (two compilations racing on shared definitions) is C18's.",
+}
+
+
 def _has_meta(s):
     return any(ch in s for ch in ".()[]+?|\\^${}")
 
@@ -144,7 +170,44 @@ def _c19_no_value_deleted(m):
             and m["impl"].endswith(" novalue"))
 
 
+def _c11_env_cache(m):
+    """C11-dynamic-cache-ignores-env: the dynamic-variable cache is keyed by (dir, command text); a command that reads a
+    variable from the environment it is handed is served from the entry another task created with a different value.
+    Narrow: vars domain, not the first compile of the sequence (same or another task compiled earlier with other values), the
+    case contains an env-reading command, and only names defined through such a command (or referring to one) differ."""
+    c = m.get("case") or {}
+    if m.get("domain") != "vars" or c.get("kind") != "resolve" or c.get("only", 0) < 1 or not m["case_line"].startswith("vars.resolve"):
+        return False
+    lists = [c.get("root_vars") or [], c.get("inc_vars") or [], c.get("sub_vars") or []]
+    for t in c.get("tasks") or []:
+        lists.append(t.get("vars") or [])
+    for cl in c.get("seq") or []:
+        lists.append(cl.get("vars") or [])
+    texts = {}
+    tainted = set()
+    for i, l in enumerate(lists):
+        for d in l:
+            if d["kind"] == "envsh":
+                texts.setdefault(d["text"], set()).add(i)
+                tainted.add(d["name"])
+    if not texts:
+        return False
+    changed = True
+    while changed:
+        changed = False
+        for l in lists:
+            for d in l:
+                if d["name"] not in tainted and any(("{{.%s}}" % t) in d["text"] or (d["kind"] in ("ref", "envsh") and d["text"] == t) for t in tainted):
+                    tainted.add(d["name"]); changed = True
+    pool = ["VA", "VB", "VC", "VD", "VE", "VF", "VG"]
+    a, b = m["impl"].split(), m["model"].split()
+    if len(a) != len(b) or len(a) != len(pool):
+        return False
+    return all(pool[i] in tainted for i in range(len(pool)) if a[i] != b[i])
+
+
 FINDING_PREDICATES = {
+    "C11-dynamic-cache-ignores-env": _c11_env_cache,
     "C19-cli-values-are-templated": _c19_values_templated,
     "C19-no-value-text-deleted": _c19_no_value_deleted,
 }
